@@ -253,6 +253,15 @@ func (st ServerType) buildTLSApp(
 			hostsNotHTTP := sblock.hostsFromKeysNotHTTP(httpPort)
 			sort.Strings(hostsNotHTTP) // solely for deterministic test results
 
+			// if this block has hostnames but all of them are served on the
+			// HTTP port, there is nothing to automate for it; without its
+			// subjects the policy would otherwise turn into a catch-all
+			// that applies to every other site (or is rejected as a second
+			// catch-all when the config is loaded)
+			if len(sblockHosts) > 0 && len(hostsNotHTTP) == 0 {
+				continue
+			}
+
 			// if the we prefer wildcards and the AP is unchanged,
 			// then we can skip this AP because it should be covered
 			// by an AP with a wildcard
